@@ -19,7 +19,17 @@ def _replace(__obj, **changes):
 
     result = replace_(__obj, **changes)
     if hasattr(__obj, FIELDS_SET_ATTR):
-        set_fields(result, *fields_set(__obj), *changes, overwrite=True)
+        init_vars = {
+            name
+            for name, field in getattr(__obj, _FIELDS).items()
+            if field._field_type == _FIELD_INITVAR
+        }
+        set_fields(
+            result,
+            *fields_set(__obj),
+            *(name for name in changes if name not in init_vars),
+            overwrite=True,
+        )
     return result
 
 
